@@ -60,10 +60,7 @@ def isVec (e : Option Err) (refs : List (Option Err)) : String :=
 def hopFull (tag : Nat) (e : Err) : Option Err := hop Full Full vfStub tag e
 
 /-- k successive hops between knowing processes -/
-def hops (k : Nat) (e : Err) : Option Err :=
-  match k with
-  | 0 => some e
-  | k + 1 => (hops k e).bind (hopFull (2000 + k))
+def hops (k : Nat) (e : Err) : Option Err := hopsFull vfStub 2000 k e
 
 def obsCase (e : Option Err) (refs : List (Option Err)) : String :=
   match e with
